@@ -184,6 +184,8 @@ func askMembers(ctx context.Context, logger log.Logger, bufToNode chan interface
 		req := request{ctx: ctx, reqType: reqTpe, sessionID: sessionID, numOfResps: numOfResp, reply: out}
 		select {
 		case <-ctx.Done():
+			// not registered: nobody else will ever close the reply channel
+			close(out)
 		case bufToNode <- req:
 		}
 	}()
